@@ -6,8 +6,9 @@
    repetitions, before or after the best-block update, skipping heights) and, where stated, all
    states.  Helper lemmas: Proofs/ChainView.lean. -/
 import LdkModel.Proofs.ChainView
+import LdkModel.Proofs.ClaimView
 namespace Ldk.C11
-open Ldk Ldk.ChainView
+open Ldk Ldk.ChainView Ldk.ClaimHeights
 
 /-- The generated threshold is never below the anti-reorg depth: an event queued at height `h`
     reaches its threshold at a best height `b` only if `b - h + 1 ≥ ANTI_REORG_DELAY`. -/
@@ -304,5 +305,387 @@ example :
     run cat (init 100) (presentsFork bestFirst .bestOnce pre forkB final 100 101) = goal ∧
     run cat (init 100) (presentsFork bestFirst .bestEach pre forkB final 100 101) = goal ∧
     run cat (init 100) (presentsFork bestFirst .unconfirmOnly pre forkB final 100 101) = goal := by decide
+
+/-! ## Claims layer: `OnchainTxHandler::claimable_outpoints` with creation heights
+
+Histories are arbitrary lists of `COp` — every chain notification of the Listen / Confirm
+contracts (`block_connected`, `transactions_confirmed`, `best_block_updated`, `blocks_disconnected`)
+in any order, with any heights and transaction lists, interleaved with `provide_payment_preimage`
+calls at any point.  `C` is the commitment transaction (the one transaction for which the monitor
+queues a FundingSpendConfirmation), `K` the catalog of its tracked outputs.  The theorems are about
+outputs of the COUNTERPARTY's commitment (`holder = false`); they are `_partial` because
+
+* histories containing `transaction_unconfirmed` are excluded (`NoUnconf`): the Confirm client that
+  reports a re-org only that way never reaches OnchainTxHandler::blocks_disconnected for a
+  transaction the handler does not track, so claims outlive their parent
+  (`unconfirm_only_keeps_claims_example`); that style is covered by the c11 correspondence;
+* "not lost" is proved while the commitment is confirmed but NOT YET IRREVOCABLE
+  (`¬ FscMat`): once `funding_spend_confirmed` is set, the real code dates a new preimage claim at the
+  tip and a one-block re-org drops it — `no_claim_lost_fails_after_final` (KF-C11-4); and for the
+  HOLDER commitment it always dates late claims at the tip — `no_claim_lost_fails_for_holder_commitment`
+  (KF-C11-3).  Both are kernel-checked counter-examples of the full statement in the model, and both
+  are reproduced on the real code by the harness oracle O1. -/
+
+/-- What the Rust text says, as translated on this run: a preimage claim built while the commitment's
+    FundingSpendConfirmation is still awaiting carries that entry's height, registration dates the
+    claim there (not at the tip), a claim made when the commitment confirms is dated at that block,
+    and a re-org to `nb` drops exactly the claims / handler entries dated above `nb`. -/
+theorem late_preimage_request_dated_at_confirmation (h best : Nat) :
+    preimageSpendHeight false (some h) best = some (some h) ∧
+    claimCreationHeight (some h) best = h ∧
+    counterpartyConfirmOutpointHeight h = some h ∧
+    (∀ c nb, claimDropped c nb = true ↔ nb < c) ∧
+    (∀ hh nb, handlerEntryDropped hh nb = true ↔ nb < hh) :=
+  ⟨rfl, rfl, rfl, claimDropped_iff, handlerEntryDropped_iff⟩
+
+example : claimCreationHeight none 107 = 107 ∧ claimDropped 103 102 = true ∧ claimDropped 103 103 = false := by decide
+
+/-- Every claim is dated at its parent's confirmation.  After ANY history (no
+    `transaction_unconfirmed`), a claim the monitor holds on an output of the counterparty's
+    commitment `C` with creation height `c` means: `C`'s FundingSpendConfirmation is awaiting at
+    exactly height `c`, or `C` is irrevocably confirmed. -/
+theorem claim_dated_at_parent_confirmation_partial (cat : Catalog) (K : ClaimCat) (C : Nat)
+    (hK : OneCommitment cat K C) (b0 : Nat) (ops : List COp) (hnu : NoUnconf ops)
+    (o : Nat) (i : OutInfo) (c : Nat) (hoi : (o, i) ∈ K.outs) (hh : i.holder = false)
+    (hx : (⟨o, c⟩ : Claim) ∈ (crun cat K (cinit b0) ops).claims) :
+    FscAw C (crun cat K (cinit b0) ops).st c ∨ FscMat C (crun cat K (cinit b0) ops).st :=
+  (crun_inv (U := fun _ => False) hK hnu (fun _ _ _ _ h => h) (cinit_inv cat K C _ b0)).dated o i c hoi hh hx
+
+/-- … and its preimage is known. -/
+theorem claim_only_with_preimage (cat : Catalog) (K : ClaimCat) (C : Nat)
+    (hK : OneCommitment cat K C) (b0 : Nat) (ops : List COp) (hnu : NoUnconf ops)
+    (o : Nat) (i : OutInfo) (c : Nat) (hoi : (o, i) ∈ K.outs)
+    (hx : (⟨o, c⟩ : Claim) ∈ (crun cat K (cinit b0) ops).claims) :
+    preKnown (preimagesOf ops) i.needs = true := by
+  have h1 := (crun_inv (U := fun _ => False) hK hnu (fun _ _ _ _ h => h) (cinit_inv cat K C _ b0)).preK o i c hoi hx
+  exact preKnown_mono (fun q hq => by
+    rcases (crun_pre cat K (cinit b0) ops q).1 hq with h2 | h2
+    · simp [cinit] at h2
+    · exact h2) h1
+
+/-- No claim is lost.  After ANY history (connects, disconnects to any fork point, preimages at any
+    moment, in any order; no `transaction_unconfirmed`): if the monitor holds `C` confirmed at height
+    `c` and not yet irrevocable, then every output of `C` whose preimage was provided at some point
+    of the history and which no delivered transaction spends has its claim pending, dated `c`. -/
+theorem no_claim_lost_partial (cat : Catalog) (K : ClaimCat) (C : Nat)
+    (hK : OneCommitment cat K C) (b0 : Nat) (ops : List COp) (hnu : NoUnconf ops)
+    (o : Nat) (i : OutInfo) (hoi : (o, i) ∈ K.outs) (hh : i.holder = false)
+    (hunspent : ∀ t ∈ delivered (chainOps ops), o ∉ K.spends t)
+    (hpre : preKnown (preimagesOf ops) i.needs = true)
+    (c : Nat) (hconf : FscAw C (crun cat K (cinit b0) ops).st c)
+    (hnf : ¬ FscMat C (crun cat K (cinit b0) ops).st) :
+    (⟨o, c⟩ : Claim) ∈ (crun cat K (cinit b0) ops).claims := by
+  have hI := crun_inv (U := fun x => x = o) hK hnu
+    (fun t ht o' ho' he => hunspent t ht (he ▸ ho')) (cinit_inv cat K C _ b0)
+  refine hI.kept o i c hoi hh rfl ?_ hconf hnf
+  exact preKnown_mono (fun q hq => (crun_pre cat K (cinit b0) ops q).2 (Or.inr hq)) hpre
+
+/-- non-vacuity: commitment 1 confirms at 100, the preimage arrives three blocks later, a fork
+    replaces the two blocks above 101 — the claim is registered at the preimage, dated 100, and
+    still there after the re-org, under either kind of rewind -/
+example :
+    let cat : Catalog := fun t => if t = 1 then [{ kind := 2, csv := none }] else []
+    let K : ClaimCat := { outs := [(7, { parent := 1, needs := some 5, holder := false })], spends := fun _ => [] }
+    let pre : List COp := [.chain (.blockConnected 100 [1]), .chain (.bestBlock 103), .preimage 5]
+    (crun cat K (cinit 99) pre).claims = [⟨7, 100⟩] ∧
+    (crun cat K (cinit 99) (pre ++ [.chain (.blocksDisconnected 101)])).claims = [⟨7, 100⟩] ∧
+    (crun cat K (cinit 99) (pre ++ [.chain (.bestBlock 100), .chain (.txsConfirmed 101 [])])).claims = [⟨7, 100⟩] ∧
+    (crun cat K (cinit 99) [.chain (.blockConnected 100 [1]), .chain (.bestBlock 103)]).claims = [] := by decide
+
+/-- A re-org that leaves the commitment confirmed loses nothing (the C11-a shape).  After any
+    history, with `C` awaiting at height `c`: rewinding to ANY fork point `h ≥ c` — by
+    `blocks_disconnected(h)` or by `best_block_updated(h)` — keeps the claim of every unspent output
+    whose preimage is known, still dated `c`. -/
+theorem reorg_above_commitment_keeps_claims_partial (cat : Catalog) (K : ClaimCat) (C : Nat)
+    (hK : OneCommitment cat K C) (b0 : Nat) (ops : List COp) (hnu : NoUnconf ops)
+    (o : Nat) (i : OutInfo) (hoi : (o, i) ∈ K.outs) (hh : i.holder = false)
+    (hunspent : ∀ t ∈ delivered (chainOps ops), o ∉ K.spends t)
+    (hpre : preKnown (preimagesOf ops) i.needs = true)
+    (c : Nat) (hconf : FscAw C (crun cat K (cinit b0) ops).st c)
+    (hnf : ¬ FscMat C (crun cat K (cinit b0) ops).st) (h : Nat) (hch : c ≤ h)
+    (hbelow : h ≤ (crun cat K (cinit b0) ops).st.best) :
+    (⟨o, c⟩ : Claim) ∈ (cstep cat K (crun cat K (cinit b0) ops) (.chain (.blocksDisconnected h))).claims ∧
+    (⟨o, c⟩ : Claim) ∈ (cstep cat K (crun cat K (cinit b0) ops) (.chain (.bestBlock h))).claims := by
+  have hI := crun_inv (U := fun x => x = o) hK hnu
+    (fun t ht o' ho' he => hunspent t ht (he ▸ ho')) (cinit_inv cat K C _ b0)
+  have hk : preKnown (crun cat K (cinit b0) ops).pre i.needs = true :=
+    preKnown_mono (fun q hq => (crun_pre cat K (cinit b0) ops q).2 (Or.inr hq)) hpre
+  have hin := hI.kept o i c hoi hh rfl hk hconf hnf
+  have hrw : (⟨o, c⟩ : Claim) ∈ (cRewind K (crun cat K (cinit b0) ops) h).claims :=
+    (mem_handlerDisconnect_claims (hAw := (crun cat K (cinit b0) ops).hAw)).2 ⟨hin, hch⟩
+  constructor
+  · show _ ∈ (cBlocksDisconnected K _ h).claims
+    unfold cBlocksDisconnected
+    split
+    · exact hrw
+    · exact hin
+  · show _ ∈ (cBestBlock K _ h).claims
+    unfold cBestBlock
+    split
+    · omega
+    · exact hrw
+
+/-- Claims whose parent was disconnected are dropped: in any reachable state in which the monitor
+    does not hold `C` confirmed (neither awaiting nor irrevocable) there is no claim on an output of
+    `C`; in particular after rewinding below `C`'s height. -/
+theorem claims_dropped_when_parent_disconnected_partial (cat : Catalog) (K : ClaimCat) (C : Nat)
+    (hK : OneCommitment cat K C) (b0 : Nat) (ops : List COp) (hnu : NoUnconf ops)
+    (hgone : known (crun cat K (cinit b0) ops).st C = false)
+    (o : Nat) (i : OutInfo) (c : Nat) (hoi : (o, i) ∈ K.outs) (hh : i.holder = false) :
+    (⟨o, c⟩ : Claim) ∉ (crun cat K (cinit b0) ops).claims := by
+  intro hx
+  rcases claim_dated_at_parent_confirmation_partial cat K C hK b0 ops hnu o i c hoi hh hx with h1 | h1
+  · rw [FscAw_known h1] at hgone; cases hgone
+  · rw [FscMat_known h1] at hgone; cases hgone
+
+/-- … the rewind form: `C` awaiting at `c`, not irrevocable; after `blocks_disconnected(h)` with
+    `h < c` the monitor no longer knows `C` and holds no claim on its outputs. -/
+theorem reorg_below_commitment_drops_claims_partial (cat : Catalog) (K : ClaimCat) (C : Nat)
+    (hK : OneCommitment cat K C) (b0 : Nat) (ops : List COp) (hnu : NoUnconf ops)
+    (c : Nat) (hconf : FscAw C (crun cat K (cinit b0) ops).st c)
+    (hnf : ¬ FscMat C (crun cat K (cinit b0) ops).st) (hcat : ∀ ev ∈ cat C, ev.kind = 2)
+    (h : Nat) (hlt : h < c) (hbest : c ≤ (crun cat K (cinit b0) ops).st.best)
+    (o : Nat) (i : OutInfo) (c' : Nat) (hoi : (o, i) ∈ K.outs) (hh : i.holder = false) :
+    (⟨o, c'⟩ : Claim) ∉ (crun cat K (cinit b0) (ops ++ [.chain (.blocksDisconnected h)])).claims := by
+  have hnu' : NoUnconf (ops ++ [.chain (.blocksDisconnected h)]) := NoUnconf_append.2 ⟨hnu, trivial⟩
+  apply claims_dropped_when_parent_disconnected_partial cat K C hK b0 _ hnu' _ o i c' hoi hh
+  have hI := crun_inv (U := fun _ => False) hK hnu (fun _ _ _ _ h => h) (cinit_inv cat K C _ b0)
+  rw [crun_append, crun_cons]
+  show known (cstep cat K _ (.chain (.blocksDisconnected h))).st C = false
+  rw [cstep_st, step_blocksDisconnected_lt cat (by omega)]
+  cases hk : known (rewindTo (crun cat K (cinit b0) ops).st h) C with
+  | false => rfl
+  | true =>
+    obtain ⟨e, he, ht⟩ := known_iff.1 hk
+    rcases he with he | he
+    · have h1 := List.mem_filter.1 he
+      have hk2 : e.ev.kind = 2 := hcat _ (ht ▸ hI.base.fromCat e (Or.inl h1.1))
+      have : e.height = c := FscAw_unique hI.base ⟨e, h1.1, ht, hk2, rfl⟩ hconf
+      have h2 := h1.2
+      simp at h2
+      omega
+    · have hk2 : e.ev.kind = 2 := hcat _ (ht ▸ hI.base.fromCat e (Or.inr he))
+      exact absurd ⟨e, he, ht, hk2⟩ hnf
+
+/-- … and regenerated when the parent re-confirms: in any reachable state in which the monitor
+    does not know `C`, a `transactions_confirmed(h', txs)` containing `C` (not already buried:
+    `best + 1 < h' + ANTI_REORG_DELAY`) registers the claim of every output of `C` whose preimage is
+    known and that the history never spends, dated at the NEW height `h'`. -/
+theorem claims_regenerated_on_reconfirmation_partial (cat : Catalog) (K : ClaimCat) (C : Nat)
+    (hK : OneCommitment cat K C) (b0 : Nat) (ops : List COp) (hnu : NoUnconf ops)
+    (hgone : known (crun cat K (cinit b0) ops).st C = false)
+    (h' : Nat) (txs : List Nat) (hC : C ∈ txs)
+    (hshallow : (crun cat K (cinit b0) ops).st.best + 1 < h' + ANTI_REORG_DELAY)
+    (o : Nat) (i : OutInfo) (hoi : (o, i) ∈ K.outs) (hh : i.holder = false)
+    (hunspent : ∀ t ∈ delivered (chainOps ops) ++ txs, o ∉ K.spends t)
+    (hpre : preKnown (preimagesOf ops) i.needs = true) :
+    (⟨o, h'⟩ : Claim) ∈ (crun cat K (cinit b0) (ops ++ [.chain (.txsConfirmed h' txs)])).claims := by
+  have hnu' : NoUnconf (ops ++ [.chain (.txsConfirmed h' txs)]) := NoUnconf_append.2 ⟨hnu, trivial⟩
+  have hd : delivered (chainOps (ops ++ [.chain (.txsConfirmed h' txs)])) = delivered (chainOps ops) ++ txs := by
+    simp [chainOps_append, delivered_append, chainOps, delivered]
+  have hp : preimagesOf (ops ++ [.chain (.txsConfirmed h' txs)]) = preimagesOf ops := by
+    simp [preimagesOf_append, preimagesOf]
+  have hstep : (crun cat K (cinit b0) (ops ++ [.chain (.txsConfirmed h' txs)])).st
+      = txsConfirmed cat (crun cat K (cinit b0) ops).st h' txs := by
+    rw [crun_append, crun_cons]; rfl
+  -- every new entry of `C` sits at `h'` and is not yet mature
+  have notReached : ∀ e : Entry, e.height = h' →
+      e.reached (max (crun cat K (cinit b0) ops).st.best h') = false := by
+    intro e he
+    apply (reached_false_iff _ _).2
+    have := e.threshold_ge
+    have hA : ANTI_REORG_DELAY = 6 := rfl
+    omega
+  obtain ⟨ev, hev, hk2⟩ := hK.has_fsc
+  apply no_claim_lost_partial cat K C hK b0 _ hnu' o i hoi hh (by rw [hd]; exact hunspent) (by rw [hp]; exact hpre)
+  · rw [hstep]
+    exact ⟨_, mem_txsConfirmed_awaiting.2 ⟨addTxs_adds (cat := cat) (h := h') hC hgone hev, notReached _ rfl⟩, rfl, hk2, rfl⟩
+  · rw [hstep]
+    rintro ⟨e, he, ht, _⟩
+    rcases mem_txsConfirmed_matured.1 he with h1 | ⟨h1, h2⟩
+    · rw [known_iff.2 ⟨e, Or.inr h1, ht⟩] at hgone; cases hgone
+    · rcases mem_addTxs_awaiting h1 with h3 | ⟨_, _, h3, _⟩
+      · rw [known_iff.2 ⟨e, Or.inl h3, ht⟩] at hgone; cases hgone
+      · rw [notReached e h3] at h2; cases h2
+
+/-- non-vacuity: claim dated 100; the fork removes the commitment (claim gone, commitment unknown);
+    it re-confirms at 101 in the new chain: claim back, dated 101 -/
+example :
+    let cat : Catalog := fun t => if t = 1 then [{ kind := 2, csv := none }] else []
+    let K : ClaimCat := { outs := [(7, { parent := 1, needs := some 5, holder := false })], spends := fun _ => [] }
+    let pre : List COp := [.chain (.blockConnected 100 [1]), .chain (.bestBlock 102), .preimage 5]
+    (crun cat K (cinit 98) pre).claims = [⟨7, 100⟩] ∧
+    (crun cat K (cinit 98) (pre ++ [.chain (.blocksDisconnected 99)])).claims = [] ∧
+    known (crun cat K (cinit 98) (pre ++ [.chain (.blocksDisconnected 99)])).st 1 = false ∧
+    (crun cat K (cinit 98) (pre ++ [.chain (.blocksDisconnected 99), .chain (.txsConfirmed 101 [1])])).claims = [⟨7, 101⟩] := by
+  decide
+
+/-- Path independence of the claims view.  Two ARBITRARY histories (different forks, different
+    notification styles, preimages provided at different moments and in different orders) that end
+    with the same monitor view of the chain (`Equiv`) and provided the same set of preimages hold the
+    same claims, with the same creation heights, on every output of the counterparty's commitment
+    that neither history spends — while the commitment is not yet irrevocable. -/
+theorem claims_view_path_independent_partial (cat : Catalog) (K : ClaimCat) (C : Nat)
+    (hK : OneCommitment cat K C) (b0 : Nat) (ops₁ ops₂ : List COp)
+    (hnu₁ : NoUnconf ops₁) (hnu₂ : NoUnconf ops₂)
+    (hst : Equiv (run cat (init b0) (chainOps ops₁)) (run cat (init b0) (chainOps ops₂)))
+    (hpre : ∀ q, q ∈ preimagesOf ops₁ ↔ q ∈ preimagesOf ops₂)
+    (o : Nat) (i : OutInfo) (hoi : (o, i) ∈ K.outs) (hh : i.holder = false)
+    (hu₁ : ∀ t ∈ delivered (chainOps ops₁), o ∉ K.spends t)
+    (hu₂ : ∀ t ∈ delivered (chainOps ops₂), o ∉ K.spends t)
+    (hnf : ¬ FscMat C (crun cat K (cinit b0) ops₁).st) (c : Nat) :
+    (⟨o, c⟩ : Claim) ∈ (crun cat K (cinit b0) ops₁).claims ↔ (⟨o, c⟩ : Claim) ∈ (crun cat K (cinit b0) ops₂).claims := by
+  have e1 : (crun cat K (cinit b0) ops₁).st = run cat (init b0) (chainOps ops₁) := crun_st cat K _ ops₁
+  have e2 : (crun cat K (cinit b0) ops₂).st = run cat (init b0) (chainOps ops₂) := crun_st cat K _ ops₂
+  have awIff : ∀ c, FscAw C (crun cat K (cinit b0) ops₁).st c ↔ FscAw C (crun cat K (cinit b0) ops₂).st c := by
+    intro c
+    rw [e1, e2]
+    constructor
+    · rintro ⟨e, he, h⟩; exact ⟨e, (hst.2.1 e).1 he, h⟩
+    · rintro ⟨e, he, h⟩; exact ⟨e, (hst.2.1 e).2 he, h⟩
+  have matIff : FscMat C (crun cat K (cinit b0) ops₁).st ↔ FscMat C (crun cat K (cinit b0) ops₂).st := by
+    rw [e1, e2]
+    constructor
+    · rintro ⟨e, he, h⟩; exact ⟨e, (hst.2.2 e).1 he, h⟩
+    · rintro ⟨e, he, h⟩; exact ⟨e, (hst.2.2 e).2 he, h⟩
+  constructor
+  · intro hx
+    have hd := claim_dated_at_parent_confirmation_partial cat K C hK b0 ops₁ hnu₁ o i c hoi hh hx
+    have hp := claim_only_with_preimage cat K C hK b0 ops₁ hnu₁ o i c hoi hx
+    rcases hd with hd | hd
+    · exact no_claim_lost_partial cat K C hK b0 ops₂ hnu₂ o i hoi hh hu₂
+        (preKnown_mono (fun q hq => (hpre q).1 hq) hp) c ((awIff c).1 hd) (fun hm => hnf (matIff.2 hm))
+    · exact absurd hd hnf
+  · intro hx
+    have hd := claim_dated_at_parent_confirmation_partial cat K C hK b0 ops₂ hnu₂ o i c hoi hh hx
+    have hp := claim_only_with_preimage cat K C hK b0 ops₂ hnu₂ o i c hoi hx
+    rcases hd with hd | hd
+    · exact no_claim_lost_partial cat K C hK b0 ops₁ hnu₁ o i hoi hh hu₁
+        (preKnown_mono (fun q hq => (hpre q).2 hq) hp) c ((awIff c).2 hd) hnf
+    · exact absurd (matIff.2 hd) hnf
+
+/-- … hence the claims view depends only on the final chain and the set of preimages provided: two
+    histories whose chain notifications are admissible presentations (`Presents`: any styles, any
+    duplication, skipping) of the SAME chain agree. -/
+theorem claims_depend_only_on_chain_and_preimages_partial (cat : Catalog) (K : ClaimCat) (C : Nat)
+    (hK : OneCommitment cat K C) (b0 : Nat) (ch : Chain) (hwf : WF ch) (ops₁ ops₂ : List COp)
+    (hnu₁ : NoUnconf ops₁) (hnu₂ : NoUnconf ops₂)
+    (hp₁ : Presents b0 ch (chainOps ops₁)) (hp₂ : Presents b0 ch (chainOps ops₂))
+    (hpre : ∀ q, q ∈ preimagesOf ops₁ ↔ q ∈ preimagesOf ops₂)
+    (o : Nat) (i : OutInfo) (hoi : (o, i) ∈ K.outs) (hh : i.holder = false)
+    (hu₁ : ∀ t ∈ delivered (chainOps ops₁), o ∉ K.spends t)
+    (hu₂ : ∀ t ∈ delivered (chainOps ops₂), o ∉ K.spends t)
+    (hnf : ¬ FscMat C (crun cat K (cinit b0) ops₁).st) (c : Nat) :
+    (⟨o, c⟩ : Claim) ∈ (crun cat K (cinit b0) ops₁).claims ↔ (⟨o, c⟩ : Claim) ∈ (crun cat K (cinit b0) ops₂).claims :=
+  claims_view_path_independent_partial cat K C hK b0 ops₁ ops₂ hnu₁ hnu₂
+    (delivery_style_independent cat b0 ch _ _ hwf hp₁ hp₂) hpre o i hoi hh hu₁ hu₂ hnf c
+
+/-- … and a history that went through a connected-then-disconnected fork (shallower than
+    ANTI_REORG_DELAY, any of the four best-height-announcing rewinds, any per-block styles) holds the
+    same claims as any fork-free presentation of the final chain, whenever the preimages were
+    provided (before the fork, on it, after the rewind, after the re-connection). -/
+theorem claims_after_fork_as_if_never_seen_partial (cat : Catalog) (K : ClaimCat) (C : Nat)
+    (hK : OneCommitment cat K C) (style : Block → BlockStyle) (r : Rewind) (hr : r ≠ .unconfirmOnly)
+    (pre forkB final : Chain) (b0 h : Nat) (ops₁ ops₂ : List COp)
+    (hshape : chainOps ops₁ = presentsFork style r pre forkB final b0 h)
+    (hnu₁ : NoUnconf ops₁) (hnu₂ : NoUnconf ops₂)
+    (hsF : Sorted b0 (pre ++ forkB)) (hsC : Sorted b0 (pre ++ final))
+    (hpreB : ∀ b ∈ pre, b.height ≤ h) (hforkB : ∀ b ∈ forkB, h < b.height) (hfin : ∀ b ∈ final, h < b.height)
+    (hb0 : b0 ≤ h) (hne : forkB ≠ [])
+    (hwfF : WF (pre ++ forkB)) (hwf : WF (pre ++ final))
+    (hd : tip b0 (pre ++ forkB) < h + ANTI_REORG_DELAY) (hge : tip b0 (pre ++ forkB) ≤ tip b0 (pre ++ final))
+    (hp₂ : Presents b0 (pre ++ final) (chainOps ops₂))
+    (hpre : ∀ q, q ∈ preimagesOf ops₁ ↔ q ∈ preimagesOf ops₂)
+    (o : Nat) (i : OutInfo) (hoi : (o, i) ∈ K.outs) (hh : i.holder = false)
+    (hu₁ : ∀ t ∈ delivered (chainOps ops₁), o ∉ K.spends t)
+    (hu₂ : ∀ t ∈ delivered (chainOps ops₂), o ∉ K.spends t)
+    (hnf : ¬ FscMat C (crun cat K (cinit b0) ops₁).st) (c : Nat) :
+    (⟨o, c⟩ : Claim) ∈ (crun cat K (cinit b0) ops₁).claims ↔ (⟨o, c⟩ : Claim) ∈ (crun cat K (cinit b0) ops₂).claims :=
+  claims_view_path_independent_partial cat K C hK b0 ops₁ ops₂ hnu₁ hnu₂
+    (hshape ▸ fork_vs_forkfree_partial cat style r hr pre forkB final b0 h _ hsF hsC hpreB hforkB hfin hb0 hne hwfF hwf hd hge hp₂)
+    hpre o i hoi hh hu₁ hu₂ hnf c
+
+/-- non-vacuity of path independence: the preimage before the commitment confirms / two blocks
+    after it; whole blocks / best-block-first; with and without a depth-2 fork above the commitment —
+    one final chain, one preimage set, identical claims -/
+example :
+    let cat : Catalog := fun t => if t = 1 then [{ kind := 2, csv := none }] else []
+    let K : ClaimCat := { outs := [(7, { parent := 1, needs := some 5, holder := false })], spends := fun _ => [] }
+    let a : List COp := [.preimage 5, .chain (.blockConnected 100 [1]), .chain (.blockConnected 101 []), .chain (.blockConnected 102 []), .chain (.blockConnected 103 [])]
+    let b : List COp := [.chain (.bestBlock 100), .chain (.txsConfirmed 100 [1]), .chain (.bestBlock 102), .preimage 5, .chain (.bestBlock 103)]
+    let c : List COp := [.chain (.blockConnected 100 [1]), .chain (.blockConnected 101 []), .chain (.blockConnected 102 []), .preimage 5,
+      .chain (.blocksDisconnected 100), .chain (.blockConnected 101 []), .chain (.blockConnected 102 []), .chain (.blockConnected 103 [])]
+    (crun cat K (cinit 99) a).claims = [⟨7, 100⟩] ∧ (crun cat K (cinit 99) b).claims = [⟨7, 100⟩] ∧
+    (crun cat K (cinit 99) c).claims = [⟨7, 100⟩] := by decide
+
+/-! ### why `_partial`: the full statements fail in the model exactly where the real code deviates -/
+
+/-- the one-commitment catalog used by the counter-examples -/
+def exCat : Catalog := fun t => if t = 1 then [{ kind := 2, csv := none }] else []
+
+theorem exCat_one (K : ClaimCat) (hp : ∀ o i, (o, i) ∈ K.outs → i.parent = 1)
+    (hf : ∀ o i i', (o, i) ∈ K.outs → (o, i') ∈ K.outs → i = i') : OneCommitment exCat K 1 where
+  fsc_only := by
+    intro t ev hev _
+    unfold exCat at hev
+    split at hev
+    · assumption
+    · cases hev
+  has_fsc := ⟨{ kind := 2, csv := none }, by simp [exCat], rfl⟩
+  parents := hp
+  functional := hf
+
+/-- `no_claim_lost` WITHOUT the "not yet irrevocable" hypothesis (commitment awaiting OR final) -/
+def NoClaimLostWhenConfirmed : Prop :=
+  ∀ (cat : Catalog) (K : ClaimCat) (C : Nat), OneCommitment cat K C → ∀ (b0 : Nat) (ops : List COp), NoUnconf ops →
+    ∀ (o : Nat) (i : OutInfo), (o, i) ∈ K.outs → i.holder = false →
+      (∀ t ∈ delivered (chainOps ops), o ∉ K.spends t) → preKnown (preimagesOf ops) i.needs = true →
+      ((∃ c, FscAw C (crun cat K (cinit b0) ops).st c) ∨ FscMat C (crun cat K (cinit b0) ops).st) →
+      hasClaim (crun cat K (cinit b0) ops).claims o = true
+
+/-- KF-C11-4 in the model: the commitment confirms at 100 and becomes irrevocable at 105; the
+    preimage arrives then (`funding_spend_confirmed` ⇒ confirmation height `None` ⇒ the claim is dated
+    at the tip, 105); a ONE-block re-org (105 → 104) drops the claim although the commitment is
+    irrevocably confirmed, the preimage known and the output unspent. -/
+theorem no_claim_lost_fails_after_final : ¬ NoClaimLostWhenConfirmed := by
+  intro hall
+  let K : ClaimCat := { outs := [(7, { parent := 1, needs := some 5, holder := false })], spends := fun _ => [] }
+  have hK : OneCommitment exCat K 1 := exCat_one K (by intro o i h; simp [K] at h; rw [h.2])
+    (by intro o i i' h h'; simp [K] at h h'; rw [h.2, h'.2])
+  have := hall exCat K 1 hK 99
+    [.chain (.blockConnected 100 [1]), .chain (.bestBlock 105), .preimage 5, .chain (.blocksDisconnected 104)]
+    (by simp [NoUnconf]) 7 { parent := 1, needs := some 5, holder := false } (by simp [K]) rfl (by intro t _; simp [K]) (by decide) (Or.inr (by decide))
+  revert this
+  decide
+
+/-- the same statement for an output of the HOLDER commitment -/
+def NoClaimLostHolder : Prop :=
+  ∀ (cat : Catalog) (K : ClaimCat) (C : Nat), OneCommitment cat K C → ∀ (b0 : Nat) (ops : List COp), NoUnconf ops →
+    ∀ (o : Nat) (i : OutInfo), (o, i) ∈ K.outs → i.holder = true →
+      (∀ t ∈ delivered (chainOps ops), o ∉ K.spends t) → preKnown (preimagesOf ops) i.needs = true →
+      (∀ c, FscAw C (crun cat K (cinit b0) ops).st c → ¬ FscMat C (crun cat K (cinit b0) ops).st →
+        hasClaim (crun cat K (cinit b0) ops).claims o = true)
+
+/-- KF-C11-3 in the model: OUR commitment confirms at 100, the preimage arrives two blocks later
+    (provide_payment_preimage hands `best_block.height` to get_broadcasted_holder_claims ⇒ the claim is
+    dated 102); a fork replacing only block 102 drops it although the commitment (at 100) is untouched. -/
+theorem no_claim_lost_fails_for_holder_commitment : ¬ NoClaimLostHolder := by
+  intro hall
+  let K : ClaimCat := { outs := [(7, { parent := 1, needs := some 5, holder := true })], spends := fun _ => [] }
+  have hK : OneCommitment exCat K 1 := exCat_one K (by intro o i h; simp [K] at h; rw [h.2])
+    (by intro o i i' h h'; simp [K] at h h'; rw [h.2, h'.2])
+  have := hall exCat K 1 hK 99
+    [.chain (.blockConnected 100 [1]), .chain (.bestBlock 102), .preimage 5, .chain (.blocksDisconnected 101)]
+    (by simp [NoUnconf]) 7 { parent := 1, needs := some 5, holder := true } (by simp [K]) rfl (by intro t _; simp [K]) (by decide) 100 (by decide) (by decide)
+  revert this
+  decide
+
+/-- why `NoUnconf`: a Confirm client that reports the re-org of the commitment with
+    `transaction_unconfirmed` only — the monitor forgets the commitment, the handler keeps the claim
+    (dated at the old height): "claims whose parent was disconnected are dropped" fails for that style. -/
+example :
+    let K : ClaimCat := { outs := [(7, { parent := 1, needs := some 5, holder := false })], spends := fun _ => [] }
+    let s := crun exCat K (cinit 99) [.preimage 5, .chain (.txsConfirmed 100 [1]), .chain (.bestBlock 101), .chain (.txUnconfirmed 1)]
+    known s.st 1 = false ∧ s.claims = [⟨7, 100⟩] := by decide
 
 end Ldk.C11
